@@ -72,9 +72,9 @@ func init() {
 		plain:       never,
 		shrinkTime:  120 * time.Second,
 		search: func(s *propSpec, b *build, a *agg) {
-			runs := int64(600)
+			runs := int64(800)
 			if tier == "thorough" {
-				runs = 40000
+				runs = 1200000
 			}
 			if *flagRuns > 0 {
 				runs = *flagRuns
@@ -99,7 +99,7 @@ func init() {
 		search: func(s *propSpec, b *build, a *agg) {
 			runs := int64(20000)
 			if tier == "thorough" {
-				runs = 3000000
+				runs = 40000000
 			}
 			if *flagRuns > 0 {
 				runs = *flagRuns
